@@ -249,6 +249,10 @@ def run(tier, seed):
                  [b"a" + bytes([c]) + b"z" for c in range(1, 256) if c != 47]
     pick = byte_names if tier == "thorough" else [byte_names[i] for i in range(seed % 7, len(byte_names), 7)]
     tasks += [{"seed": seed, "i": 100000 + k, "name": n} for k, n in enumerate(pick)]
+    # names that are valid UTF-8 but not in normalisation form C (base letter + combining mark, singletons, conjoining jamo):
+    # other bytes than their composed twins, hence other names
+    tasks += [{"seed": seed, "i": 200000 + k, "name": n.encode()} for k, n in enumerate(
+        ["cafe\u0301 menu.txt", "\u212bngstro\u0308m", "\u1112\u1161\u11ab.dat", "\u2126", "e\u0301", "\ufb01le"])]
     nested = run_tasks(nested_pipeline, [{"seed": seed, "i": i, "nested": True} for i in range(12 if tier == "quick" else 150)])
     for r in list(run_tasks(pipeline, tasks)) + list(nested):
         if "machinery" in r:
